@@ -1,18 +1,34 @@
 #!/bin/bash
-# Sensitivity self-test: applies every seeded change to /repo in turn, runs the property's quick check,
-# restores /repo, and writes seeded/RESULTS.md. /repo must be clean.
+# Sensitivity self-test: for every seeded change under seeded/, makes a scratch worktree of /repo HEAD, applies
+# the change there, runs the quick check of the property (or of the property named by "check_with" in
+# meta.json) against that worktree (VERIF_REPO), removes the worktree, and writes seeded/RESULTS.md.
+# /repo itself is not touched. usage: sensitivity.sh [budget_s] [id-glob]
 cd /verif
 B=${1:-60}
-echo "| seeded change | property | verdict | fingerprint | runs until report |" > seeded/RESULTS.md
-echo "|---|---|---|---|---|" >> seeded/RESULTS.md
-for d in seeded/*/; do
-  id=$(basename $d); P=${id%%-*}
+G=${2:-*}
+W=/tmp/verif-sens-wt
+O=/tmp/verif-sens-out
+echo "| seeded change | checked with | verdict | fingerprint | runs until report |" > seeded/RESULTS.md.new
+echo "|---|---|---|---|---|" >> seeded/RESULTS.md.new
+for d in seeded/$G/; do
+  id=$(basename $d)
   [ -f $d/patch.diff ] || continue
-  out=$(./tryseed.sh $P /verif/$d/patch.diff $B 2>&1)
-  fp=$(echo "$out" | grep -o "violation fingerprint: .*" | head -1 | sed 's/violation fingerprint: //')
-  runs=$(echo "$out" | grep -o "runs=[0-9]*" | head -1)
-  if echo "$out" | grep -q "^EXIT 1"; then v=caught; elif echo "$out" | grep -q "^EXIT 0"; then v=MISSED; else v="exit2"; fi
-  echo "| $id | $P | $v | ${fp:-} | ${runs:-} |" >> seeded/RESULTS.md
-  echo "$id $v $fp $runs"
-  rm -f replays/*.json
+  P=${id%%-*}
+  C=$(python3 -c "import json,sys; print(json.load(open('$d/meta.json')).get('check_with','$P'))" 2>/dev/null || echo $P)
+  git -C /repo worktree remove --force $W 2>/dev/null; rm -rf $W $O
+  git -C /repo worktree add -q --detach $W HEAD || { echo "worktree failed"; exit 2; }
+  if ! git -C $W apply /verif/$d/patch.diff 2>/dev/null; then
+    v="patch-does-not-apply"; fp=""; runs=""
+  else
+    mkdir -p $O
+    out=$(VERIF_REPO=$W VERIF_OUTDIR=$O timeout 1500 ./verif check $C --budget $B 2>&1); rc=$?
+    fp=$(echo "$out" | grep -o "violation fingerprint: .*" | head -1 | sed 's/violation fingerprint: //')
+    [ -z "$fp" ] && fp=$(echo "$out" | grep -o "REPLAY fingerprint=[^ ]*" | head -1 | sed 's/REPLAY fingerprint=//')
+    runs=$(echo "$out" | grep -o "runs=[0-9]*" | head -1)
+    case $rc in 1) v=caught;; 0) v=MISSED;; *) v="exit$rc";; esac
+  fi
+  echo "| $id | $C | $v | ${fp:-} | ${runs:-} |" >> seeded/RESULTS.md.new
+  echo "$id $C $v $fp $runs"
+  git -C /repo worktree remove --force $W 2>/dev/null; rm -rf $W $O
 done
+if [ "$G" = "*" ]; then mv seeded/RESULTS.md.new seeded/RESULTS.md; else cat seeded/RESULTS.md.new; rm -f seeded/RESULTS.md.new; fi
